@@ -16,6 +16,34 @@ P = {
         "Trusted: harness GF(2) polynomial arithmetic and the generator polynomials (textbook Hamming/Golay/QR), CPython, bitarray, numpy.",
         "DESIGN.md §3 C06",
     ),
+    "C08": (
+        "model_checking",
+        "explicit-state BFS over the real Terminal/Timeslot/Transmission objects (all burst sequences to a depth bound) with a property monitor",
+        "Bounded exhaustive exploration of the real tracker: every sequence over a 21-burst alphabet up to depth 3 (quick) / 4 (thorough), a 13-burst core to depth 4 / 6, voice super-frame sequences to depth 8 / 10 and two-timeslot interleavings to depth 3 with a shadow single-slot run per slot; a monitor checks start/end well-formedness, handed-over header and blocks, idle + fresh stream id, A-F labels, sequence numbers and observer isolation on every transition.",
+        "Bound: depth and the burst alphabet (one member per dispatch branch plus blocks-to-follow / confirmed / SAP variants). Trusted: harness monitor, counter seam for secrets.token_bytes, constant clock.",
+        "DESIGN.md §3 C08",
+    ),
+    "C17": (
+        "model_checking",
+        "explicit-state BFS over the real RRSDatagramProtocol (single handler, and two handlers wired back to back with all delivery orders) + complete enumeration of all truncations / single-bit corruptions at depth 1",
+        "All datagram sequences over a 22-class alphabet to depth 5 (quick) / 8 (thorough) from 6 initial states (sequence counter near wrap-around, connected or not) against a reference model; closed two-handler system with <= 2 / 3 injected datagrams and every delivery order, which must always go quiet; every prefix truncation and single-bit flip of every alphabet datagram in 4 reachable states.",
+        "Bound: depth, alphabet, injection budget. Trusted: harness HSTRP/HDAP writer+parser, reference model of the statement, constant clock.",
+        "DESIGN.md §3 C17",
+    ),
+    "C18": (
+        "model_checking",
+        "explicit-state BFS to fix-point over the real P2PDatagramProtocol / RDACDatagramProtocol + RepeaterStorage with a recording transport, reference models in lock-step",
+        "The reachable state space over the datagram alphabet is finite and explored completely (fix-point): every history of any length over 10 P2P datagram classes x 3 (4) sources and 12 RDAC datagram classes x 2 (3) peers. Outputs are classified by the harness and compared with the registered-source model / the 14-step table on every transition.",
+        "Bound: the datagram alphabet (one member per dispatch branch + malformed members). Trusted: transcribed handshake constants, SNMP stub (prescribed by the property), uuid counter seam.",
+        "DESIGN.md §3 C18",
+    ),
+    "C20": (
+        "model_checking",
+        "explicit-state BFS to fix-point over the real RepeaterStorage in lock-step with a list-of-dicts reference model (full public-state diff after every call)",
+        "Every history of any length over ~60 API calls on 2 colliding addresses (fix-point), all sequences to depth 3 / 4 over 3 addresses with the full patch pool, and depth-bounded runs that move address_in; identity, growth, id uniqueness and locality of patches are checked as a whole-storage diff against the model after every transition.",
+        "Bound: address / key / value pools; patching id, method names or None values is outside the statement. Trusted: reference model, uuid counter seam.",
+        "DESIGN.md §3 C20",
+    ),
 }
 
 NOT_YET = {}
